@@ -547,9 +547,15 @@ def thread_stress(rng, tier, res):
     long_pat = "." * 600 + "-k"
     docs.append({"pat": long_pat, "p2": "a.*", "items": ["x" * 600 + "-k", "abc", "nope", "a", "ab-k", "b" * 602]})
     docs.append(["abc", "abd", "b", "", "a", {"a": "abc"}, {"a": "b"}, "nope"])
+    # deep equality of containers of ONE shared document (long arrays/objects differing only at the end), so that a
+    # thread switch can land inside a comparison another thread is making of the very same objects
+    big_a, big_b = list(range(40)), list(range(39)) + [-1]
+    obj_a, obj_b = {"k%d" % i: i for i in range(30)}, {"k%d" % i: (i if i < 29 else -1) for i in range(30)}
+    docs.append({"rows": [{"a": big_a, "b": big_b}, {"a": obj_a, "b": obj_b}, {"a": big_a, "b": list(big_a)}, {"a": [big_a, obj_a], "b": [big_a, obj_b]}]})
     qs = ["$..*", "$[?@..*]", "$..[?@.a]", "$[?count(@.*) > 1]", "$..[::-1]", "$[?@[?@ == 1]]",
           "$..[?match(@, 'a.*')]", "$..[?match(@, 'nope')]", "$..[?search(@, 'b')]", "$..[?search(@, 'c|d')]",
-          "$.items[?match(@, $.pat)]", "$.items[?match(@, $.p2)]", "$..[?match(@.a, 'a[a-c]+')]", "$..[?search(@.a, '[a-b]$')]"]
+          "$.items[?match(@, $.pat)]", "$.items[?match(@, $.p2)]", "$..[?match(@.a, 'a[a-c]+')]", "$..[?search(@.a, '[a-b]$')]",
+          "$.rows[?@.a == @.b]", "$.rows[?@.a != @.b]", "$.rows[?@.a <= @.b]", "$.rows[?@.a == $.rows[0].a]", "$.rows[?@.b == $.rows[1].b]"]
     shared = [env.compile(q) for q in qs]
     others = [jp.JSONPathEnvironment().compile(q) for q in qs]
     want = {(i, j): enc_list(shared[i].find(docs[j])) for i in range(len(qs)) for j in range(len(docs))}
